@@ -44,6 +44,7 @@ type Config struct {
 	Inputs        map[string]uint64
 	Known         map[string]bool
 	Params        map[string]int
+	MapOrderFns   []string // functions whose map ranges start at a solver-chosen entry
 	MaxSteps      int64
 	MaxRecords    int
 	MaxGoroutines int
